@@ -86,4 +86,26 @@ def register(reg):
                     all(isinstance(e, ast.Tuple) and len(e.elts) == 2 and isinstance(e.elts[0], ast.Constant) for e in n.iter.elts):
                 found = [e.elts[0].value for e in n.iter.elts]
         res.append(("attributes-in-fixed-order-canonically-spelled", found == order, f"attribute table in the source: {found}"))
+        # the Path attribute: whenever a path is given it goes through quote() with a safe set that contains neither ';'
+        # nor white space / control / '"' / backslash -- unconditionally (a path cannot end the attribute or add another one)
+        assigns = [n for n in ast.walk(fn) if isinstance(n, ast.Assign) and any(isinstance(t_, ast.Name) and t_.id == "path" for t_ in n.targets)]
+        ok_path = False
+        detail = "no assignment to path found"
+        if len(assigns) == 1:
+            a = assigns[0]
+            call = a.value
+            safe = None
+            if isinstance(call, ast.Call) and ast.unparse(call.func) == "quote" and call.args and ast.unparse(call.args[0]) == "path":
+                for kw in call.keywords:
+                    if kw.arg == "safe" and isinstance(kw.value, ast.Constant) and isinstance(kw.value.value, str):
+                        safe = kw.value.value
+            guards = [n for n in ast.walk(fn) if isinstance(n, ast.If) and a in n.body]
+            guard_ok = len(guards) == 1 and ast.unparse(guards[0].test) == "path is not None" and not guards[0].orelse
+            top_level = guards and guards[0] in fn.body
+            bad = set(safe or ";") & set('; \t\r\n"\\\x00')
+            ok_path = safe is not None and not bad and guard_ok and bool(top_level)
+            detail = f"path = {ast.unparse(call)[:60]} under `{ast.unparse(guards[0].test) if guards else None}`; unsafe characters in the safe set: {sorted(bad)}"
+        else:
+            detail = f"{len(assigns)} assignments to path"
+        res.append(("path-attribute-always-quoted-with-a-delimiter-free-safe-set", ok_path, detail))
         return res
